@@ -219,14 +219,25 @@ func C16(r *vf.Run) {
 					}
 					// over-capacity Append on a twin original with too little room
 					if short := g.Intn(8); short >= 1 && short <= 3 && clone.Len() >= short {
-						small := asm.NewEmitter(make([]byte, orig.Len()+clone.Len()-short), listing)
+						arena := make([]byte, orig.Len()+clone.Len()+64)
+						small := asm.NewEmitter(arena[:orig.Len()+clone.Len()-short], listing)
 						for _, c := range calls[:sp] {
 							invoke(small, c)
+						}
+						tailClone := clone
+						if g.Bool() {
+							// the tail was assembled in place: in the rest of the arena the original's
+							// window was cut from, right behind what the original holds
+							tailClone = small.Clone(arena[small.Len():])
+							for _, c := range calls[sp:] {
+								invoke(tailClone, c)
+							}
+							cells["append-refused:tail-in-own-arena"]++
 						}
 						sb := observeFull(small, names, listing)
 						pan := func() (p interface{}) {
 							defer func() { p = recover() }()
-							small.Append(clone)
+							small.Append(tailClone)
 							return nil
 						}()
 						if pan == nil {
